@@ -1,6 +1,8 @@
 package vm
 
 import (
+	"bytes"
+	"encoding/json"
 	"fmt"
 	"math/big"
 
@@ -29,6 +31,21 @@ type ScriptV1 struct {
 	Vars map[string]any `json:"vars"`
 }
 
+// UnmarshalJSON decodes numbers of the variables as json.Number: a monetary
+// amount given as a JSON number must reach the machine exactly, whatever its
+// magnitude (float64 loses integers above 2^53 and int overflows above 2^63).
+func (s *ScriptV1) UnmarshalJSON(data []byte) error {
+	type plain ScriptV1
+	decoder := json.NewDecoder(bytes.NewReader(data))
+	decoder.UseNumber()
+	x := plain{}
+	if err := decoder.Decode(&x); err != nil {
+		return err
+	}
+	*s = ScriptV1(x)
+	return nil
+}
+
 func (s ScriptV1) ToCore() Script {
 	s.Script.Vars = map[string]string{}
 	for k, v := range s.Vars {
@@ -39,6 +56,8 @@ func (s ScriptV1) ToCore() Script {
 			switch amount := v["amount"].(type) {
 			case string:
 				s.Script.Vars[k] = fmt.Sprintf("%s %s", v["asset"], amount)
+			case json.Number:
+				s.Script.Vars[k] = fmt.Sprintf("%s %s", v["asset"], amount.String())
 			case float64:
 				s.Script.Vars[k] = fmt.Sprintf("%s %d", v["asset"], int(amount))
 			}
